@@ -338,7 +338,7 @@ impl Property for C12 {
         ]
     }
     fn expected_probes(&self) -> Vec<&'static str> {
-        vec!["stop_mid_pilot", "stop_mid_byte", "stop_in_pause", "stop_while_stopped", "play_after_end", "rewind_while_playing", "rewind_while_stopped", "ran_off_end", "stop_at_refill", "system_history"]
+        vec!["stop_mid_pilot", "stop_mid_byte", "stop_in_pause", "stop_while_stopped", "play_after_end", "rewind_while_playing", "rewind_while_stopped", "ran_off_end", "stop_at_refill", "system_history", "stop_aimed_by_edge_count"]
     }
 
     fn gen(&self, rng: &mut Rng, _tier: Tier, idx: u64) -> Scenario {
@@ -347,6 +347,31 @@ impl Property for C12 {
         sc.set("avoid_known", avoid_known as i64);
         sc.set("system", (idx % 10 == 9) as i64);
         sc.set("m128", rng.bool() as i64);
+        if idx % 200 == 151 {
+            // a tape of more than 256 (or 512) blocks, rewound while the block behind a multiple of 256 plays
+            let nblocks = *rng.pick(&[258usize, 258, 300, 515]);
+            let blocks: Vec<Vec<u8>> = (0..nblocks).map(|i| tape::std_block(0xFF, &[i as u8])).collect();
+            sc.set("system", 0);
+            sc.set("chunk", *rng.pick(&[0i64, 3, 128]));
+            sc.set("eof_err", rng.bool() as i64);
+            sc.set("step_mode", 1);
+            sc.push(Op::blob("tape", &[], tape::make_tap(&blocks)));
+            // edges per block: pilot 3223, two sync pulses, 3 x 16 bit pulses (and the pause, +-1)
+            let per = 3223 + 2 + 48;
+            let k = if nblocks > 512 && rng.bool() { 512 } else { 256 };
+            let target = *rng.pick(&[k - 1, k - 1, k - 1, k, k - 2]) as i64;
+            sc.op("play", &[]);
+            sc.op("adv", &[(target + 2) * 11_000_000, rng.next() as i64 & 0xFFFF, target * per + rng.range(300, 2800), rng.range(0, 3000)]);
+            if rng.bool() {
+                sc.op("stop", &[]);
+                sc.op("adv", &[1000, 1, 0, 0]);
+            }
+            sc.op("rewind", &[]);
+            sc.op("play", &[]);
+            // two blocks after the rewind
+            sc.op("adv", &[2 * (3223 * 2168 + 3_500_000 + 48 * 1710) + rng.range(0, 2_000_000), rng.next() as i64 & 0xFFFF, 0, 0]);
+            return sc;
+        }
         let blocks = gen_tape(rng, 3, 302);
         let img = tape::make_tap(&blocks);
         let chunk = *rng.pick(&[0i64, 1, 2, 3, 7, 64, 128, 129]);
@@ -374,6 +399,15 @@ impl Property for C12 {
         let mut pos = 0u64; // approximate play position
         let mode = *rng.pick(&[0i64, 0, 0, 1, 3, 4]);
         sc.set("step_mode", mode);
+        if rng.chance(1, 3) {
+            // the first command after PLAY lands around the end of the first pilot tone, aimed by counting edges:
+            // last pilot pulse, first or second sync pulse, first data bit
+            let nom = tape::pilot_count(&blocks[0]) as i64;
+            sc.op("play", &[]);
+            sc.op("adv", &[(nom + 8) * 2200, rng.next() as i64 & 0xFFFF, nom + rng.range(-2, 2), rng.range(0, 800)]);
+            playing = true;
+            pos = segs[1].0 + 700;
+        }
         for _ in 0..n_cmds {
             // choose a command
             let cmd = if !playing {
@@ -600,7 +634,23 @@ impl Property for C12 {
                     let mut left = op.arg(0).max(0) as u64;
                     let mut steps = Steps::new(op.arg(1), mode);
                     let mut reads_before = stats.borrow().reads;
+                    // optional aim by counting: advance until this many more edges were seen (at most the given
+                    // time), then `extra` T further
+                    let mut edges_left = op.arg(2).max(0) as u64;
+                    let extra = op.arg(3).max(0) as u64;
+                    let aimed = edges_left > 0;
                     while left > 0 {
+                        if aimed && !playing {
+                            break;
+                        }
+                        if aimed && edges_left == 0 {
+                            left = left.min(extra);
+                            edges_left = u64::MAX;
+                            ctx.probe("stop_aimed_by_edge_count");
+                            if left == 0 {
+                                break;
+                            }
+                        }
                         let s = steps.next().min(left);
                         left -= s;
                         if let Err(e) = tap.process_clocks(s as usize) {
@@ -616,6 +666,9 @@ impl Property for C12 {
                                 pulse_end.push(play_time);
                                 last_edge = play_time;
                                 level = now;
+                                if aimed && edges_left != u64::MAX {
+                                    edges_left = edges_left.saturating_sub(1);
+                                }
                             }
                             if tap.can_fast_load() {
                                 // deck stopped by itself: must be the end of the tape
